@@ -191,17 +191,24 @@ peg::parser! {
 
         rule expr() -> Expr = or_expr()
 
+        // The left operand is parsed once and the `OR ...` tail is optional: with two ordered
+        // alternatives that both start with and_expr() every nesting level re-parsed its
+        // operand, which made parenthesised input take exponential time.
         rule or_expr() -> Expr
-            = x:and_expr() _ ci("OR") _ y:or_expr() {
-                Expr::Or(Box::new(x), Box::new(y))
+            = x:and_expr() rest:(_ ci("OR") _ y:or_expr() { y })? {
+                match rest {
+                    Some(y) => Expr::Or(Box::new(x), Box::new(y)),
+                    None => x,
+                }
             }
-            / and_expr()
 
         rule and_expr() -> Expr
-            = x:factor() _ ci("AND") _ y:and_expr() {
-                Expr::And(Box::new(x), Box::new(y))
+            = x:factor() rest:(_ ci("AND") _ y:and_expr() { y })? {
+                match rest {
+                    Some(y) => Expr::And(Box::new(x), Box::new(y)),
+                    None => x,
+                }
             }
-            / factor()
 
         rule factor() -> Expr
             = ci("NOT") _ x:factor() { Expr::Not(Box::new(x)) }
